@@ -401,6 +401,28 @@ def c04_cases(tier):
                         return "%s.%s is renamed although the identifier equals the GraphQL name" % (sname, plain)
                 return None
             yield case, oracle
+    # nothing but the option decides the attribute: not a default value declared by the operation, not the derive lists, not the naming option
+    for (extra, why) in (({"variables_derives": "Default"}, "Default derived"), ({"variables_derives": "Debug, Default, Clone", "normalization": "rust"}, "several derives, rust naming"),
+                         ({"response_derives": "Default,Serialize"}, "response derives")):
+        for skip in (False, True):
+            schema = "enum E { A B } input Filter { plain: Int = 3 type: E = A } type Query { f(a: Int, type: E, s: String!, filter: Filter): Int }"
+            q = 'query Q($a: Int = 20, $type: E = B, $s: String! = "x", $filter: Filter = {plain: 1}) { f(a: $a, type: $type, s: $s, filter: $filter) }'
+            case = {"schema": schema, "query": q, "options": dict({"mode": "cli", "skip_serializing_none": skip}, **extra)}
+
+            def oracle_d(res, skip=skip, why=why):
+                if res["exit"] != 0 or not res["out"] or not res["out"].get("ok"):
+                    return "generation failed for variables with default values (%s)" % why
+                st = _structs(norm(res["out"]["tokens"]))
+                for (sname, members) in (("Variables", {"a": True, "type_": True, "s": False, "filter": True}), ("Filter", {"plain": True, "type_": True})):
+                    fs = st.get(sname)
+                    if fs is None or sorted(fs) != sorted(members):
+                        return "struct %s has members %s, expected %s" % (sname, sorted(fs or []), sorted(members))
+                    for f, nullable in members.items():
+                        has_skip = 'skip_serializing_if="Option::is_none"' in fs[f][0]
+                        if has_skip != (skip and nullable):
+                            return "%s.%s (declared with a default value; %s): skip_serializing_if is %s although the option is %s" % (sname, f, why, "present" if has_skip else "absent", "on" if skip else "off")
+                return None
+            yield case, oracle_d
 
 
 def c05_cases(tier):
@@ -600,7 +622,7 @@ def c09_cases(tier):
     schema = ("interface Named { name: String } type HTTPEndpoint implements Named { name: String url: String } type rate_limit implements Named { name: String n: Int } "
               "union Thing = HTTPEndpoint | rate_limit enum Kind { A_b where } scalar Date input In { type: Kind when_at: Date ids: [ID!] } "
               "type Query { named: Named thing: Thing kind(in: In, plain_arg: Int, id: ID): Kind when: Date }")
-    q = ("fragment N on Named { __typename name } query my_op($in: In, $plain_arg: Int, $id: ID) { named { __typename ...N ... on HTTPEndpoint { url } } "
+    q = ("fragment N on Named { __typename name } query my_op($in: In, $plain_arg: Int = 5, $id: ID = \"a\") { named { __typename ...N ... on HTTPEndpoint { url } } "
          "thing { __typename ... on rate_limit { n } } kind(in: $in, plain_arg: $plain_arg, id: $id) when }")
     base = {"mode": "cli"}
     variants = [{"normalization": "rust"}, {"response_derives": "Debug,Clone,PartialEq"}, {"variables_derives": "Debug,Default"},
@@ -622,6 +644,45 @@ def c09_cases(tier):
                 return "options %s change the wire-relevant text: default has %s, this has %s (counts %s vs %s)" % (v, da, db, a[1:], b[1:])
             return None
         yield case, oracle
+
+
+def c03_cases(tier):
+    """C13's rule for every field type, plus: at an abstract position each member type is selected by its own `__typename` - the serde tag
+    of a variant (its identifier, or its rename when it has one) is the schema's type name, under every naming option"""
+    for x in c13_cases(tier):
+        yield x
+    schema = ("interface Named { name: String } type HTTPEndpoint implements Named { name: String url: String } type rate_limit implements Named { name: String n: Int } "
+              "type Plain implements Named { name: String } union Thing = HTTPEndpoint | rate_limit | Plain type Query { named: Named thing: Thing things: [Thing!] }")
+    queries = [("query Q { thing { __typename ... on rate_limit { n } ... on HTTPEndpoint { url } } }", {"QThing": ["HTTPEndpoint", "rate_limit", "Plain"]}),
+               ("query Q { named { __typename name ... on HTTPEndpoint { url } } things { __typename } }", {"QNamedOn": ["HTTPEndpoint", "rate_limit", "Plain"], "QThings": ["HTTPEndpoint", "rate_limit", "Plain"]})]
+    for (q, want) in queries:
+        for opts in ({}, {"normalization": "rust"}, {"fragments_other_variant": True}, {"normalization": "rust", "fragments_other_variant": True}):
+            case = {"schema": schema, "query": q, "options": dict({"mode": "cli"}, **opts)}
+
+            def oracle(res, q=q, want=want, opts=opts):
+                if res["exit"] != 0 or not res["out"] or not res["out"].get("ok"):
+                    return "generation failed for a valid operation: %s (%s)" % (q, opts)
+                t = norm(res["out"]["tokens"])
+                for m in re.finditer(r"pubenum([A-Za-z0-9_]+)\{([^{}]*)\}", t):
+                    name, body = m.group(1), m.group(2)
+                    key = name if name in want else next((k for k in want if camel_eq(k, name)), None)
+                    if key is None:
+                        continue
+                    tags = []
+                    for v in body.split(","):
+                        if not v or "serde(other)" in v:
+                            continue
+                        rn = re.search(r'rename="([^"]*)"', v)
+                        ident = re.sub(r"#\[[^\]]*\]", "", v).split("(")[0]
+                        tags.append(rn.group(1) if rn else ident)
+                    if sorted(tags) != sorted(want[key]):
+                        return "enum %s is tagged by %s, the member types are %s: a payload whose __typename is a missing name does not select its own variant (`%s`, options %s)" % (name, tags, want[key], q, opts)
+                return None
+            yield case, oracle
+
+
+def camel_eq(a, b):
+    return a.replace("_", "").lower() == b.replace("_", "").lower()
 
 
 def _by_value_cycle(t):
@@ -831,6 +892,31 @@ def c01_cases(tier):
                 return "`%s` is accepted although the conforming payload %s (a member type on which __typename is not selected) has no discriminant for the generated tagged enum" % (q, other)
             return None
         yield case, oracle2
+    # the "possible runtime types" of an abstract position are what the schema says, however it says it: an object that joins an
+    # interface or gains a field through `extend type`, an interface implemented by one object only, a union member declared last
+    ext_schema = ("interface Named { name: String } type Dog implements Named { name: String } type Robot { model: String } "
+                  "extend type Robot implements Named { name: String serial: Int } type Solo implements Named { name: String } "
+                  "union Pet = Dog | Robot type Query { names: [Named!] pet: Pet robot: Robot }")
+    for (q, structs, enums) in [
+        ("query Q { names { __typename name ... on Robot { model serial } } }", {"QNamesOnRobot": ["model", "serial"]}, {"QNamesOn": ["Dog", "Robot(QNamesOnRobot)", "Solo"]}),
+        ("query Q { names { __typename } }", {}, {"QNames": ["Dog", "Robot", "Solo"]}),
+        ("query Q { robot { name serial model } pet { __typename ... on Robot { serial } } }", {"QRobot": ["name", "serial", "model"], "QPetOnRobot": ["serial"]}, {"QPet": ["Dog", "Robot(QPetOnRobot)"]}),
+    ]:
+        case = {"schema": ext_schema, "query": q, "options": {"mode": "cli"}}
+
+        def oracle3(res, q=q, structs=structs, enums=enums):
+            if res["exit"] != 0 or not res["out"] or not res["out"].get("ok"):
+                return "generation failed for a valid operation over a schema with `extend type`: %s" % q
+            t = norm(res["out"]["tokens"])
+            st, en = _structs(t), _enums(t)
+            for name, fields in structs.items():
+                if name not in st or list(st[name].keys()) != fields:
+                    return "struct %s has members %s, the selection has %s (`%s`, schema with `extend type Robot implements Named`)" % (name, list(st.get(name, {}).keys()), fields, q)
+            for name, vs in enums.items():
+                if name not in en or sorted(en[name]) != sorted(vs):
+                    return "enum %s has variants %s, the schema (with `extend type Robot implements Named`) gives %s: a conforming payload of a missing type is rejected (`%s`)" % (name, en.get(name), vs, q)
+            return None
+        yield case, oracle3
 
 
 def c08_cases(tier):
@@ -992,7 +1078,8 @@ def c12_all_cases(tier):
     """input-object cycles (c12_cases) + recursive named fragments: no by-value cycle among the generated response types"""
     for x in c12_cases(tier):
         yield x
-    schema = ("interface Node { id: ID! next: Node } type Item implements Node { id: ID! next: Node value: Int child: Item items: [Item!] } "
+    schema = ("interface Node { id: ID! next: Node } type Item implements Node { id: ID! next: Node value: Int child: Item items: [Item!] link: Link } "
+              "type Link { label: String target: Item owner: Folder } "
               "type Folder implements Node { id: ID! next: Node parent: Node } type Query { root: Node item: Item }")
     queries = [
         "fragment R on Item { value child { ...R } } query Q { item { ...R } }",
@@ -1000,6 +1087,10 @@ def c12_all_cases(tier):
         "fragment T on Node { __typename id ... on Item { child { ...I } } } fragment I on Item { value next { ...T } } query Q { root { ...T } }",
         "fragment L on Item { items { ...L } } query Q { item { ...L } }",
         "fragment W on Item { value child { child { ...W } } } query Q { item { ...W } }",
+        # the cycle passes through a field of ANOTHER object type before it comes back to the fragment's type
+        "fragment V on Item { value link { label target { ...V } } } query Q { item { ...V } }",
+        "fragment V on Item { link { target { link { target { ...V } } } } } query Q { item { ...V } }",
+        "fragment U on Node { __typename id ... on Item { link { owner { parent { ...U } } } } } query Q { root { ...U } }",
     ]
     for q in queries:
         case = {"schema": schema, "query": q, "options": {"mode": "cli"}}
@@ -1018,7 +1109,7 @@ def c12_all_cases(tier):
         yield case, oracle
 
 
-FAMILIES = {"C15": c15_cases, "C13": c13_cases, "C03": c13_cases, "C14": c14_cases, "C16": c16_cases, "C17": c17_all_cases, "C11": c11_cases, "C08": c08_cases, "C10": c10_cases, "C06": c06_cases, "C04": c04_cases, "C05": c05_cases, "C12": c12_all_cases, "C09": c09_cases, "C02": c02_cases, "C01": c01_cases}
+FAMILIES = {"C15": c15_cases, "C13": c13_cases, "C03": c03_cases, "C14": c14_cases, "C16": c16_cases, "C17": c17_all_cases, "C11": c11_cases, "C08": c08_cases, "C10": c10_cases, "C06": c06_cases, "C04": c04_cases, "C05": c05_cases, "C12": c12_all_cases, "C09": c09_cases, "C02": c02_cases, "C01": c01_cases}
 
 
 EXEC_DIR = os.path.join(VERIF, "replay-exec")
